@@ -298,6 +298,12 @@ def writer(rep, prog, A):
             if sm is not None and cm is not None and isinstance(var, ast.Name) and T.same(sm['_I'], var) and \
                     isinstance(sm['_W'], ast.Constant) and isinstance(cm.get('_S', ast.Constant(value=1)), ast.Constant):
                 P, W, Q, S = sm['_P'], sm['_W'].value, cm['_Q'], cm.get('_S', ast.Constant(value=1)).value
+        if P is None and len(body) == 1 and body[0][0] == 'V':
+            # the stdlib line wrappers: on a text without blanks they cut exactly every `width` characters
+            tm = T.match_any(body[0][1], ["'\\n'.join(textwrap.wrap(_P, _W))", "'\\n'.join(textwrap.wrap(_P, width=_W))", "textwrap.fill(_P, _W)",
+                                          "textwrap.fill(_P, width=_W)"])
+            if tm is not None and isinstance(tm['_W'], ast.Constant):
+                P, W, Q, S = tm['_P'], tm['_W'].value, tm['_P'], tm['_W'].value
         if P is None:
             unwrapped = len(body) == 1 and body[0][0] == 'V' and b64text_of(body[0][1]) is not None
             if unwrapped:
@@ -318,11 +324,15 @@ def writer(rep, prog, A):
         crcp = _sub(table, m.group('crc'))
         shown_crc = T.show_pieces(crcp)
         Y = b64text_of(crcp[0][1]) if len(crcp) == 1 and crcp[0][0] == 'V' else None
-        im = T.match(Y, 'INT(_N, _C)') if Y is not None else None
+        im = T.match_any(Y, ['INT(_N, _C)', "_C.to_bytes(_N, 'big')", "_C.to_bytes(_N, byteorder='big')", "_C.to_bytes(length=_N, byteorder='big')"]) \
+            if Y is not None else None
         cm = im and T.match_any(im['_C'], ['_R.crc24(_D)', 'crc24(_D)'])
         if Y is not None and im is None and not _calls_named(Y, ('crc24',)):
             rep.violation('C10.2', 'Armorable.__str__', 'crc = %s' % shown_crc, 'the checksum line must carry the CRC-24 of the binary export', where=f.where,
                           expected='b64encode(int_to_bytes(crc24(bytes(self)), 3))', found=shown_crc)
+        elif im is not None and not (isinstance(im['_N'], ast.Constant) and im['_N'].value == 3):
+            rep.violation('C10.2', 'Armorable.__str__', 'crc = %s' % shown_crc, 'the CRC-24 must be written as exactly three octets (leading zero octets kept)',
+                          where=f.where, expected='b64encode(int_to_bytes(crc24(bytes(self)), 3))', found=shown_crc)
         elif Y is None or im is None or not cm:
             raise AnalysisError('Armorable.__str__: checksum has an unmodelled shape: %s' % shown_crc[:200])
         else:
@@ -337,11 +347,20 @@ def writer(rep, prog, A):
             _, _, var, coll, inner = hdr[0]
             itext, itable = T.layout(inner)
             hm = re.match(r'^(%s)([^\n]*)(%s)\n$' % (T.PH, T.PH), itext)
-            if hm and isinstance(var, ast.Tuple) and len(var.elts) == 2 and T.show(coll) == '%s.ascii_headers.items()' % selfn and \
-                    all(itable[hm.group(i)][0] == 'V' for i in (1, 3)) and \
-                    [T.show(itable[hm.group(i)][1]) for i in (1, 3)] == [T.show(e) for e in var.elts] and not any(ch in itable for ch in hm.group(2)):
-                ok = True
-                sep_seen = hm.group(2)
+            slots = [itable[hm.group(i)] for i in (1, 3)] if hm else []
+            if hm and all(p[0] == 'V' for p in slots) and not any(ch in itable for ch in hm.group(2)):
+                D = '%s.ascii_headers' % selfn
+                got = [T.show(ast.Tuple(elts=[var, p[1]], ctx=ast.Load())) for p in slots]       # each slot as a function of the loop variable(s)
+                if isinstance(var, ast.Tuple) and len(var.elts) == 2 and T.show(coll) == D + '.items()':
+                    want = [T.show(ast.Tuple(elts=[var, e], ctx=ast.Load())) for e in var.elts]
+                elif isinstance(var, ast.Name) and T.show(coll) in (D, D + '.keys()', 'list(%s)' % D, 'iter(%s)' % D):
+                    val = ast.Subscript(value=T.parse_term(D), slice=var, ctx=ast.Load())
+                    want = [T.show(ast.Tuple(elts=[var, e], ctx=ast.Load())) for e in (var, val)]
+                else:
+                    want = None
+                if want is not None and got == want:
+                    ok = True
+                    sep_seen = hm.group(2)
         rep.check(ok and sep_seen == ': ', 'C10.7', 'Armorable.__str__', 'headers %s' % T.show_pieces(hdr)[:120],
                   'each supplied armor header is written as "key: value" on its own line', where=f.where,
                   expected="''.join(<key> ': ' <value> '\\n' for key, value in self.ascii_headers.items())", found=T.show_pieces(hdr))
@@ -555,7 +574,13 @@ def reader(rep, prog, A, writer_sep):
               where=f.where, expected='search in both', found=meths)
     # ---- CRC comparison and reaction, on every path that decodes a CRC line
     tree, groups = armor_tree(A)
-    mandatory = [n for n in groups if regexast.group_is_mandatory(tree, groups[n])]
+    mandatory = Mandatory(n for n in groups if regexast.group_is_mandatory(tree, groups[n]))
+    for n in mandatory:
+        try:
+            if not regexast.Lang(regexast.find_group(tree, groups[n])[0][2]).accepts(''):
+                mandatory.nonempty.append(n)
+        except regexast.Unsupported:
+            pass
     paths = [s for s in paths if not _infeasible(s, mandatory)]
     crc_paths = [s for s in paths if any(_uses_group(c, 'crc') for c in s.calls)]
     rep.check(bool(crc_paths), 'C10.6', 'Armorable.ascii_unarmor', 'paths decoding the CRC line: %d' % len(crc_paths),
@@ -575,17 +600,17 @@ def reader(rep, prog, A, writer_sep):
         n_cmp += 1
         t, val, sk, a = hit
         equal_means = a[1] == '=='
-        # the truth value of the whole test when the two CRCs are EQUAL
-        on_equal = eval_skel(sk, lambda at: (equal_means if at is a else None))
-        on_diff = eval_skel(sk, lambda at: ((not equal_means) if at is a else None))
-        if on_equal is None or on_diff is None or on_equal == on_diff:
-            pol_bad.append(t)
-            continue
+        # is the decision taken on this path consistent with the two CRCs being different / being equal?  (the other atoms of a
+        # compound test are unknown unless they ask for the presence of something that is always there)
+        on_diff = eval_skel(sk, lambda at: ((not equal_means) if at is a else _group_presence(at, mandatory)))
+        on_equal = eval_skel(sk, lambda at: (equal_means if at is a else _group_presence(at, mandatory)))
+        may_differ = on_diff is None or on_diff == val
+        may_agree = on_equal is None or on_equal == val
         reported = s.raised is not None or _reports_after(s, t)
-        if val == on_diff and not reported:
-            react_bad.append('mismatch path: no warning / error')
-        if val == on_equal and reported:
-            pol_bad.append('%s = %s reports although the CRCs agree' % (t[:80], val))
+        if may_differ and not reported:
+            react_bad.append('a path on which the CRCs may differ ends without warning / error: (%s) = %s' % (t[-100:], val))
+        if reported and not may_differ and may_agree:
+            pol_bad.append('%s = %s reports although the CRCs agree' % (t[-100:], val))
     rep.check(bool(crc_paths) and n_cmp == len(crc_paths), 'C10.6', 'Armorable.ascii_unarmor', 'crc comparison on %d of %d CRC paths' % (n_cmp, len(crc_paths)),
               'crc24(decoded body) is compared with the decoded CRC value on every path that has a CRC line', where=f.where,
               expected="crc24(b64decode(body)) != bytes_to_int(b64decode(crc))")
@@ -648,6 +673,13 @@ def reader(rep, prog, A, writer_sep):
               'the tail line must carry the same label as the header line', where=A.where)
 
 
+class Mandatory(list):
+    """Names of the groups that take part in every match of the armor expression; .nonempty: those that cannot match ''."""
+    def __init__(self, it=()):
+        list.__init__(self, it)
+        self.nonempty = []
+
+
 def _infeasible(s, mandatory):
     """The path assumes that a group which takes part in every match of the armor expression is None."""
     for t, val, sk in s.facts:
@@ -656,7 +688,27 @@ def _infeasible(s, mandatory):
             is_none = val if sk[1] in ('is', '==') else (not val)
             if is_none and node is not None and any(_is_group_ref(node, n) for n in mandatory):
                 return True
+        if sk is not None and sk[0] == 'expr' and val is False:
+            node = T.parse_term(sk[1])
+            if node is not None and any(_is_group_ref(node, n) for n in mandatory.nonempty):
+                return True
     return False
+
+
+def _group_presence(atom, mandatory):
+    """Truth value of an atom that asks whether a group which takes part in every match is (not) None; None for any other atom."""
+    if atom[0] == 'cmp' and atom[1] in ('is', 'is not', '==', '!=') and atom[3] == 'None':
+        node = T.parse_term(atom[2])
+        if node is not None and any(_is_group_ref(node, n) for n in mandatory):
+            return atom[1] in ('is not', '!=')
+        if isinstance(node, ast.Call) and _calls_named(node, ('bytes_to_int', 'from_bytes', 'int', 'len', 'bytearray', 'bytes', 'b64decode')) and \
+                _calls_named(node, ('bytes_to_int', 'from_bytes', 'int', 'len', 'bytearray', 'bytes', 'b64decode'))[0] is node:
+            return atom[1] in ('is not', '!=')         # the result of a conversion is never None
+    if atom[0] == 'expr':
+        node = T.parse_term(atom[1])
+        if node is not None and any(_is_group_ref(node, n) for n in mandatory.nonempty):
+            return True
+    return None
 
 
 def _is_group_ref(node, name):
